@@ -148,6 +148,57 @@ def symbolSet (alph : String) (gapsAsMissing : Bool) (c : Char) : Option SS :=
 def rowOfSymbols (alph : String) (gapsAsMissing : Bool) (syms : List Char) : Option Row :=
   syms.mapM (symbolSet alph gapsAsMissing)
 
+/-! ### matrices whose columns have their own state alphabets
+
+`taxon_state_sets_map` asks every CELL for its own state's fundamental indexes, so in a matrix with several state alphabets
+(the normal shape of a NeXML standard matrix: each `<char>` refers to its own `<states>`; or several `CharacterType`s) one symbol
+may denote different sets in different columns.  A column is described either by the name of a fixed alphabet (generated table)
+or by a custom alphabet written out: fundamental symbols in order, named ambiguity codes with their member symbols, and whether
+it has the gap state `-` (one more fundamental state) and the missing-data state `?` as `StateAlphabet(gap_symbol="-",
+no_data_symbol="?")` / `new_standard_state_alphabet` create them. -/
+
+inductive ColAlph where
+  | table (name : String)
+  | custom (gapMissing : Bool) (fund : List Char) (amb : List (Char × List Char))
+
+def idxOf (c : Char) : List Char → Option Nat
+  | [] => none
+  | x :: xs => if x == c then some 0 else (idxOf c xs).map (· + 1)
+
+/-- union of the singletons of the member symbols (`none` if a member is not a fundamental symbol) -/
+def fundMask (fund : List Char) : List Char → Option SS
+  | [] => some 0
+  | c :: cs =>
+    match idxOf c fund, fundMask fund cs with
+    | some i, some m => some ((1 <<< i) ||| m)
+    | _, _ => none
+
+def customSet (gm : Bool) (fund : List Char) (amb : List (Char × List Char)) (gapsAsMissing : Bool) (c : Char) : Option SS :=
+  let k := fund.length
+  let all := (1 <<< k) - 1
+  if gm && c == '-' then some (if gapsAsMissing then all else 1 <<< k)
+  else if gm && c == '?' then some (if gapsAsMissing then all else all ||| (1 <<< k))
+  else match idxOf c fund with
+    | some i => some (1 <<< i)
+    | none =>
+      match amb.find? (fun a => a.1 == c) with
+      | some (_, ms) => fundMask fund ms
+      | none => none
+
+def colSymbolSet (col : ColAlph) (gapsAsMissing : Bool) (c : Char) : Option SS :=
+  match col with
+  | .table name => symbolSet name gapsAsMissing c
+  | .custom gm fund amb => customSet gm fund amb gapsAsMissing c
+
+/-- one row of a matrix with per-column alphabets (`none` on a length mismatch or an unknown symbol) -/
+def rowOfCols : List ColAlph → Bool → List Char → Option Row
+  | [], _, [] => some []
+  | col :: cols, g, c :: cs =>
+    match colSymbolSet col g c, rowOfCols cols g cs with
+    | some v, some vs => some (v :: vs)
+    | _, _ => none
+  | _, _, _ => none
+
 /-! ### root positions: sliding the (degree-two) root of a bifurcating tree onto a neighbouring edge -/
 
 inductive Step where
